@@ -192,14 +192,6 @@ def _max_call(du, operand):
     return None
 
 
-def _local_of(du, operand):
-    org = du.origin(operand)
-    if org['k'] == 'ref':
-        pl = org['pl']
-        return pl['l'] if Q.is_plain(pl) else None
-    return Q.operand_local(operand)
-
-
 @RS.rule('C11.R2', 'K-WRITERS+K-SIBLING', 'per-signal record: written only by its updaters; every update is set_disposition(new) exactly on old != new, committed on success')
 def r2(cx):
     F = cx.F
@@ -655,9 +647,6 @@ def r7(cx):
         if p:
             cx.violation(RUN_TRAP, 'restore-skipped', 'after a trap action that was not interrupted, $? is not restored on some path',
                          loc=rb.loc(restores[0][2]), path=Q.render_path(rb, p))
-        for b, j, s in restores:
-            if any(b in rb.reachable(tgt) for (sb, tgt) in interrupt) and not interrupt:
-                pass
         # the trap frame is pushed before the action runs
         frames = [(b, t) for b, t in Q.find_calls(rb, ['*::push_frame'])]
         ok = False
